@@ -49,6 +49,7 @@ def op_configs(tier):
     add("combination filter D", op="combofilter", fam="D", R=7)
     add("combination filter A", op="combofilter", fam="A", R=7)
     add("combination filter, three treatment columns", op="combofilter", fam="T3", R=8)
+    add("segregating M2 (120 samples: more than a hundred generated plates)", op="segr", fam="M2", R=120, pmax=1)
     if True:
         from .retro_common import family
         # quick: the two largest small structures (ten rows on six plates, repeated sizes); thorough: 64 structures
